@@ -99,10 +99,10 @@ def norm_path(path):
     m = _re.search(r"/registry/src/[^/]+/(.*)$", path)
     if m:
         return m.group(1)
-    m = _re.search(r"/((?:core|cli)/src/.*)$", path)
+    m = _re.search(r"/(library/.*)$", path)           # the Rust standard library (/rustc/<hash>/library/...)
     if m:
         return m.group(1)
-    m = _re.search(r"/(library/.*)$", path)
+    m = _re.search(r"(?:^|/)((?:core|cli)/src/.*)$", path)
     if m:
         return m.group(1)
     return path
